@@ -22,6 +22,56 @@ MANIFEST = dict(
 PROP = "C07"
 
 
+def live_phase(ctx):
+    """Live daemon (virtual clock for the time check; the purge timer runs on the real clock): the record of a decoded
+    credential survives replies that cannot be delivered and every presentation up to the last valid second."""
+    import rig, credcorr
+    from props import c05_live
+    try:
+        exe, orc = credcorr.build_all(ctx)
+    except RuntimeError as e:
+        ctx.violation(str(e), {"obligation": "build"}, found_input=False)
+        return
+    cr = credcorr.CredRig(ctx, exe, orc, tag="c07live", nthreads=2)
+    if not cr.ok:
+        ctx.violation("daemon does not start", {"obligation": "start"}, found_input=False)
+        return
+    fails, dist = [], {}
+    c05_live.undelivered_phase(ctx, cr, fails, dist)
+    # presentations at every second of the window after a first decode: replayed up to and including the last one
+    T0 = 1500000000
+    for ttl in (1, 2, 59, 60, 61):
+        cr.set_clock(T0)
+        r, _ = rig.encode(cr.d.sock, uid=3, gid=4, ttl=ttl, data=b"window")
+        cred = r["data"]
+        d, m, diff = cr.decode_both(cred, uid=5, gid=6)
+        for dt in sorted(set([0, 1, ttl - 1, ttl, ttl + 1])):
+            if dt < 0:
+                continue
+            cr.set_clock(T0 + dt)
+            d, m, diff = cr.decode_both(cred, uid=5, gid=6)
+            ctx.count(("live-window", ttl, dt))
+            dist["live-window"] = dist.get("live-window", 0) + 1
+            want = 17 if dt <= ttl else 15
+            if d is None or d["error_num"] != want:
+                fails.append({"why": "ttl=%d: presentation %d s after the encode time of an already decoded credential gives %s, expected %d"
+                                     % (ttl, dt, d and d["error_num"], want), "kind": "live-window"})
+    mism = list(cr.mismatches)
+    rc, rep = cr.stop()
+    if rep.strip():
+        ctx.violation("sanitizer report from the daemon during the C07 live phase", {"report": rep[:3000]}, found_input=False)
+    ctx.cov.setdefault("input_distribution", {}).update({"live-" + k: v for k, v in dist.items()})
+    seen = set()
+    for f in fails:
+        if f["kind"] in seen:
+            continue
+        seen.add(f["kind"])
+        ctx.violation(f["why"], f, found_input=True)
+    if mism and not fails:
+        ctx.violation("model and daemon disagree in the C07 live phase on %d cases (first: %s)" % (len(mism), mism[0]["diff"]),
+                      {"obligation": "correspondence CredModel ~ munged (C07 live)", "first": mism[0]}, found_input=False)
+
+
 def run(ctx):
     ctx.level = "proof"
     proved = vlib.prove(ctx, ["Properties_C07.v", "Properties_C07_pipeline.v"], facts=["replay", "cred", "base64"])
@@ -33,7 +83,7 @@ def run(ctx):
                        "and bucket neighbours expiring at e-1/e/e+1, plus random histories with purges at e-1/e/e+1 of "
                        "every key; every history is non-trivial (distinct by content)")
     res = replay_common.component_phase(ctx, PROP, proved)
-    # (maintainer: live-daemon phase goes here)
+    live_phase(ctx)
     if not proved and not ctx.violations:
         ctx.violation("proof obligation no longer checks: %s" % getattr(ctx, "broken_obligation", "?"),
                       {"obligation": getattr(ctx, "broken_obligation", "?"), "log": ctx.proof_log[-3000:]},
